@@ -14,6 +14,8 @@ report kind: 0 metric 1 alert 2 component 3 context 4 operational 5 waveform 6 d
     end ver seq inst(opt) nD D* nS S* nC C* nC2 C*
     reset
     dump                                     (complete content: delta against empty tables)
+    desc CORE CORE nR R*                     (C01: do the reports describe the change p -> p'?  CORE := ver seq inst nD D* nS S* nC C*,
+                                              R := the arguments of `rep`)
 
 Answer: `<mode> <ver> <seq> <inst> | <notifications> | <delta of the three tables against the state before>`.
 -/
@@ -100,6 +102,30 @@ def pEnd : P (Snapshot × List CState) := fun r => do
   let (c2, r) ← pList pC r
   pure ((⟨⟨ver, seq, inst⟩, ds, ss, cs⟩, c2), r)
 
+def pCore : P Core := fun r => do
+  let (ver, r) ← pNat r
+  let (seq, r) ← pNat r
+  let (inst, r) ← pOpt r
+  let (ds, r) ← pList pD r
+  let (ss, r) ← pList pS r
+  let (cs, r) ← pList pC r
+  pure (⟨⟨ver, seq, inst⟩, ⟨ds, ss, cs⟩⟩, r)
+
+def pDescribe : P (Core × Core × List Report) := fun r => do
+  let (p, r) ← pCore r
+  let (p', r) ← pCore r
+  let (rs, r) ← pList pReport r
+  pure ((p, p', rs), r)
+
+def failingClauses (c : DescribeClauses) : List String :=
+  [("nonempty", c.nonempty), ("vg", c.vg), ("ids", c.ids), ("shape", c.shape), ("wf", c.wf),
+   ("partsDistinct", c.partsDistinct), ("created", c.created), ("updated", c.updated), ("deleted", c.deleted),
+   ("descrComplete", c.descrComplete), ("descrRemoved", c.descrRemoved), ("flat", c.flat),
+   ("stateSound", c.stateSound), ("stateNewer", c.stateNewer), ("stateComplete", c.stateComplete),
+   ("stateRemoved", c.stateRemoved), ("deletedStatesGone", c.deletedStatesGone), ("cstateSound", c.cstateSound),
+   ("cstateNewer", c.cstateNewer), ("cstateComplete", c.cstateComplete), ("cstateRemoved", c.cstateRemoved),
+   ("ctxUpdateLists", c.ctxUpdateLists)].filterMap (fun (n, b) => if b then none else some n)
+
 /-! ### canonical output -/
 
 def sortNat (l : List Nat) : List Nat := l.mergeSort (· ≤ ·)
@@ -144,6 +170,15 @@ def stepLine (st : St) (line : String) : St × String :=
   match Io.words line with
   | ["reset"] => (St.init, "ok")
   | ["dump"] => (st, answer { st with core := ⟨st.core.vg, {}⟩ } st [])
+  | "desc" :: rest =>
+    match Io.parseNats rest with
+    | some ns =>
+      match pDescribe ns with
+      | some ((p, p', rs), []) =>
+        let c := describeClauses p p' rs
+        (st, if c.all then "describes" else "not: " ++ " ".intercalate (failingClauses c))
+      | _ => (st, "bad-op")
+    | none => (st, "bad-op")
   | ["begin"] =>
     let r := step st .reloadBegin
     (r.1, answer st r.1 r.2)
